@@ -216,8 +216,42 @@ def _check_activation_liveness(cur, ledger, confirmed, text, where):
             raise Violation("activated-flow-not-restarted", f"{where}: flow {a['flow_id']} activated {fid} and is still running, but no instance of {fid} is listening\n{text}")
 
 
+class _StepBudget(BaseException):
+    pass
+
+
+_budget = {"n": 0, "installed": False}
+
+
+def _install_budget():
+    if _budget["installed"]:
+        return
+    m = smh.sm()
+    orig = m._get_all_head_candidates
+
+    def counted(*a, **k):
+        _budget["n"] += 1
+        if _budget["n"] > 5000:
+            raise _StepBudget()
+        return orig(*a, **k)
+
+    m._get_all_head_candidates = counted
+    _budget["installed"] = True
+
+
 def _nowait_prop(case):
     text = case["text"]
+    _install_budget()
+    _budget["n"] = 0
+    try:
+        return _nowait_run(case, text)
+    except _StepBudget:
+        raise Violation("nowait-activated-flow-ran-again", f"more than 5000 internal events for one external event: the activated flow without a waiting statement keeps restarting\n{text}")
+    finally:
+        _budget["n"] = -10**12  # never trips outside this leg
+
+
+def _nowait_run(case, text):
     try:
         s = smh.Session(text, case["choices"])
     except Exception as e:
@@ -228,6 +262,7 @@ def _nowait_prop(case):
             smh.Clock.virtual += 6.0
             continue
         ev = {"type": item[1]}
+        _budget["n"] = 0
         try:
             events += smh.feed(s.state, ev)
         except Exception as e:
